@@ -48,7 +48,10 @@ TouchOnly(c) == LET E == UNION {Segs(EdgeRecs(val[n])) : n \in Bases(c)}
 \* `big`: coordinates beyond 2^12 (up to 2^30) - only arithmetic-free laws are evaluated;
 \* `touch`: the generator's claim (trusted like validity) that the two operands of the family
 \* meet in common vertices only
-BigCall(c) == meta[c.x].big \/ meta[c.y].big
+\* `opaque`: operands passed with their original float coordinates (the repository's fixtures):
+\* no image in the integer domain, so only the geometry-free laws C03 and C12 apply
+OpaqueCall(c) == meta[c.x].opaque \/ meta[c.y].opaque
+BigCall(c) == meta[c.x].big \/ meta[c.y].big \/ OpaqueCall(c)
 ClaimedTouch(c) == meta[c.x].touch /\ meta[c.y].touch
 ExactCall(c) == IF BigCall(c) THEN ClaimedTouch(c) ELSE ((\A n \in Bases(c) : Octi(val[n])) \/ TouchOnly(c))
 Depth1(c) == meta[c.x].expr[1] = "b" /\ meta[c.y].expr[1] = "b"
@@ -90,7 +93,8 @@ RegionEq3(m1, m2, m3) == RegionEq4(m1, m2, m3, <<>>)
 \* C03: the call returned, and the sweep processed a quadratically bounded number of events
 C03_Returns(c) ==
   /\ c.outcome = "ok"
-  /\ LET n == Cardinality(EdgesOfName(c.x)) + Cardinality(EdgesOfName(c.y))
+  /\ LET ne(v) == IF meta[v].opaque THEN meta[v].nedges ELSE Cardinality(EdgesOfName(v))
+         n == ne(c.x) + ne(c.y)
      IN n = 0 \/ (c.popped \div n) <= 4*n + 2
 
 \* C04: the output geometry comes from the inputs (rings assembled by the sweep)
@@ -129,6 +133,19 @@ C01_TouchOnlyObvious(c) ==
     CASE c.op = "int" -> IsEmptyMp(c.mp)
       [] c.op = "diff" -> CanonMp(c.mp, TRUE) = CanonMp(val[c.x], TRUE)
       [] OTHER -> CanonMp(c.mp, TRUE) = CanonMp(val[c.x] \o val[c.y], TRUE)
+
+\* C01 for operands given with their original float coordinates that only touch: the generator
+\* states the obvious result; coordinates are compared as bit strings (no arithmetic), rings up to
+\* their start vertex
+OpenS(r) == IF Len(r) >= 2 /\ r[1] = r[Len(r)] THEN SubSeq(r, 1, Len(r) - 1) ELSE r
+RotEqS(r1, r2) == LET a == OpenS(r1)  b == OpenS(r2)
+                  IN Len(a) = Len(b) /\ (Len(a) = 0 \/ \E k \in 1..Len(a) : RotTo(a, k) = b)
+PolyEqS(p, q) == Len(p) = Len(q) /\ Len(p) >= 1 /\ RotEqS(p[1], q[1])
+                 /\ \A j \in 2..Len(p) : \E j2 \in 2..Len(q) : RotEqS(p[j], q[j2])
+SameRingSetS(m1, m2) == /\ Len(m1) = Len(m2)
+                        /\ \A i \in 1..Len(m1) : \E j \in 1..Len(m2) : PolyEqS(m1[i], m2[j])
+                        /\ \A j \in 1..Len(m2) : \E i \in 1..Len(m1) : PolyEqS(m1[i], m2[j])
+C01_OpaqueObvious(c) == c.hasexpect => SameRingSetS(c.smp, c.expect)
 
 \* C12 (first half): the operands are bit-for-bit what they were before the call
 C12_OperandsUntouched(c) == c.xd[1] = c.xd[2] /\ c.yd[1] = c.yd[2]
@@ -228,14 +245,14 @@ Violated(c) ==
       geo == wantGeo /\ decid
       extra == IF c04 THEN {} ELSE resE
       und == IF wantGeo /\ ~decid THEN {"UNDECIDED"} ELSE {}
-      v01 == IF "C01" \in Laws /\ ((geo /\ Depth1(c) /\ ~RegionOK(c, extra)) \/ (ok /\ un /\ big /\ ~C01_TouchOnlyObvious(c))) THEN {"C01"} ELSE {}
+      v01 == IF "C01" \in Laws /\ ((geo /\ Depth1(c) /\ ~RegionOK(c, extra)) \/ (ok /\ un /\ big /\ ~OpaqueCall(c) /\ ~C01_TouchOnlyObvious(c)) \/ (ok /\ un /\ OpaqueCall(c) /\ ~C01_OpaqueObvious(c))) THEN {"C01"} ELSE {}
       v11 == IF "C11" \in Laws /\ geo /\ ~Depth1(c) /\ ~RegionOK(c, extra) THEN {"C11"} ELSE {}
       v02 == IF "C02" \in Laws /\ geo /\ ~C02_PolygonSetValid(c) THEN {"C02"} ELSE {}
-      v06 == IF "C06" \in Laws /\ ok /\ un /\ ~((big \/ (C06_Self(c) /\ C06_Empty(c))) /\ C06_DisjointBoxes(c) /\ pair(C06_Commutes)) THEN {"C06"} ELSE {}
-      v07 == IF "C07" \in Laws /\ ~pair(C07_RepresentationInvariant) THEN {"C07"} ELSE {}
+      v06 == IF "C06" \in Laws /\ ok /\ un /\ ~OpaqueCall(c) /\ ~((big \/ (C06_Self(c) /\ C06_Empty(c))) /\ C06_DisjointBoxes(c) /\ pair(C06_Commutes)) THEN {"C06"} ELSE {}
+      v07 == IF "C07" \in Laws /\ ~OpaqueCall(c) /\ ~pair(C07_RepresentationInvariant) THEN {"C07"} ELSE {}
       v08 == IF "C08" \in Laws /\ ~big /\ ~pair(C08_TransformCommutes) THEN {"C08"} ELSE {}
       v09 == IF "C09" \in Laws /\ ~big /\ ~pair(C09_FarPartLocal) THEN {"C09"} ELSE {}
-      v10 == IF "C10" \in Laws /\ ~pair(C10_F32AgreesF64) THEN {"C10"} ELSE {}
+      v10 == IF "C10" \in Laws /\ ~OpaqueCall(c) /\ ~pair(C10_F32AgreesF64) THEN {"C10"} ELSE {}
       v05 == IF "C05" \in Laws /\ ~big /\ ~C05_Partition(c, lg) THEN {"C05"} ELSE {}
   IN und \cup v03 \cup v12 \cup v04 \cup v01 \cup v11 \cup v02 \cup v06 \cup v07 \cup v08 \cup v09 \cup v10 \cup v05
 
@@ -262,7 +279,8 @@ Call(c) ==
   /\ bad' = Violated(c)
   /\ val' = Ext(val, c.res, c.mp)
   /\ meta' = Ext(meta, c.res, [rel |-> "result", of |-> "", frame |-> meta[c.x].frame, expr |-> ExprOf(c),
-                                big |-> meta[c.x].big \/ meta[c.y].big, touch |-> FALSE])
+                                big |-> meta[c.x].big \/ meta[c.y].big, touch |-> FALSE,
+                                opaque |-> meta[c.x].opaque \/ meta[c.y].opaque, nedges |-> 0])
   /\ log' = Append(log, c)
 
 BInit == val = <<>> /\ meta = <<>> /\ log = <<>> /\ bad = {}
